@@ -823,6 +823,38 @@ func indexDischarged(fn *ssa.Function, blk *ssa.BasicBlock, base, index ssa.Valu
 			if v == index || sameArith(v, index) {
 				return true
 			}
+			// an unsigned index compared after conversion to int (int(n) < len(xs) … xs[n]): sound
+			// for values that fit an int, which is shown where every caller hands a constant
+			if cv, ok := v.(*ssa.Convert); ok && cv.X == index {
+				if b, ok := index.Type().Underlying().(*types.Basic); ok && b.Info()&types.IsUnsigned != 0 {
+					if p, ok := index.(*ssa.Parameter); ok && idxWorld != nil {
+						if lenEngine == nil || lenEngine.w != idxWorld {
+							lenEngine = newLenEng(idxWorld)
+						}
+						lenEngine.buildCallers()
+						pi := -1
+						for i, q := range fn.Params {
+							if q == p {
+								pi = i
+							}
+						}
+						calls := lenEngine.callers[fn]
+						all := pi >= 0 && len(calls) > 0 && !lenEngine.escapes[fn]
+						for _, c := range calls {
+							if pi >= len(c.Call.Args) {
+								all = false
+								continue
+							}
+							if _, isK := c.Call.Args[pi].(*ssa.Const); !isK {
+								all = false
+							}
+						}
+						if all {
+							return true
+						}
+					}
+				}
+			}
 			// slice bound X+1 is in range when X < len
 			if kind == "slice" {
 				if add, ok := index.(*ssa.BinOp); ok && add.Op == token.ADD && add.X == v {
